@@ -668,11 +668,14 @@ def _segment_child(seg, flags, carry):
         import tomli
         import tomli_w
 
-        with open("restart.toml", "rb") as fh:
-            cfg = tomli.load(fh)
-        cfg["simulation"]["steps"] = seg["steps"]
-        with open("restart.toml", "wb") as fh:
-            tomli_w.dump(cfg, fh)
+        try:
+            with open("restart.toml", "rb") as fh:
+                cfg = tomli.load(fh)
+            cfg["simulation"]["steps"] = seg["steps"]
+            with open("restart.toml", "wb") as fh:
+                tomli_w.dump(cfg, fh)
+        except (tomli.TOMLDecodeError, FileNotFoundError, KeyError):
+            pass  # an unreadable restart file is for setup_config to report
     try:
         config = setup_config("restart.toml" if restart else "infretis.toml")
     except Exception as exc:  # noqa: BLE001
@@ -693,15 +696,41 @@ def _segment_child(seg, flags, carry):
     # ---- install recorders (attribute rebinding, child only)
     o_prep, o_treat, o_archive = REPEX_state.prep_md_items, REPEX_state.treat_output, repex.write_to_pathens
 
+    fault = seg.get("fault")
+    ctl = None
+    counts = {"treat": 0, "prep": 0}
+    if fault:
+        from vlib import fsfault
+
+        ctl = fsfault.install(fsfault.Control(os.getcwd(), fault.get("crash_at"), fault.get("cut", 0)))
+
     def prep(self, md_items):
         obs.before_prep(self, md_items)
-        res = o_prep(self, md_items)
+        counts["prep"] += 1
+        on = bool(ctl) and fault.get("phase") == "prep" and counts["prep"] == fault["target"]
+        if on:
+            ctl.active = True
+        try:
+            res = o_prep(self, md_items)
+        finally:
+            if on:
+                ctl.active = False
         obs.after_prep(self, res)
         return res
 
     def treat(self, md_items):
         obs.before_treat(self, md_items)
-        res = o_treat(self, md_items)
+        counts["treat"] += 1
+        on = bool(ctl) and fault.get("phase", "treat") == "treat" and counts["treat"] == fault["target"]
+        if on:
+            ctl.active = True
+            out["fault_step_status"] = md_items.get("status")
+            out["fault_step_ens"] = list(md_items.get("ens_nums", []))
+        try:
+            res = o_treat(self, md_items)
+        finally:
+            if on:
+                ctl.active = False
         obs.after_treat(self, res)
         return res
 
@@ -742,6 +771,8 @@ def _segment_child(seg, flags, carry):
     out["runner_stopped"] = drv.stopped
     out["schedule_used"] = policy.used
     out["trace"] = obs.trace[-400:]
+    if ctl:
+        out["fault_log"] = list(ctl.log)
     carry["njobs"] = obs.njobs
     out["carry"] = carry
     if state is not None:
